@@ -83,7 +83,7 @@ def check_vector(env, mod, root, vec, g, checks, res):
     except S.WalkError as e:
         raise RuntimeError("harness/spec mismatch in walk: %s" % e)
     outL, outB = bytes(vec["outL"]), bytes(vec["outB"])
-    if any(r == "p" for r in vec["role"]) or env.d(root)["ms"] and len(vec["walk"]) > 1:
+    if any(r == "p" for r in vec.get("role", ())) or env.d(root)["ms"] and len(vec["walk"]) > 1:
         res["nontrivial"].append(g["gid"])
     try:
         msg = P.new_message(env, mod, root)
@@ -109,6 +109,15 @@ def check_vector(env, mod, root, vec, g, checks, res):
         res["n_checked"]["enc"] = res["n_checked"].get("enc", 0) + 1
     if "mirror" in checks and enc["<"] is not None and enc[">"] is not None:
         check_mirror(env, g, vec, enc["<"], enc[">"], outL, outB, res)
+    if "print" in checks:
+        res["n_checked"]["print"] = res["n_checked"].get("print", 0) + 1
+        try:
+            got = str(msg)
+        except Exception as e:
+            got = None
+            _fail(res, "print", env, g, vec, "str(message) raised %s" % P.exc_text(e))
+        if got is not None and got != vec["text"]:
+            _fail(res, "print", env, g, vec, "python str() = %r, specification text %r" % (got, vec["text"]))
     if "dec" in checks and vec["gta"]:
         res["n_checked"]["dec"] = res["n_checked"].get("dec", 0) + 1
         for order, data in (("<", outL), (">", outB)):
